@@ -175,3 +175,20 @@ Proof.
   destruct (C12_yule x y L Hx) as (H1 & H2 & H3 & _). repeat split; try apply H1; try apply H2; try apply H3.
 Qed.
 
+(* symmetric_kl (for the smoothing constant z of the call; the registry passes the default src_default_symmetric_kl_z) and
+   ll_dirichlet (symmetry only, as in P_C12: [C12_ll_dirichlet_partial]) about the translated source *)
+Corollary C12_src_symmetric_kl : forall (z : R) (x y : list R), length x = length y -> 0 < z -> nonnegl x -> nonnegl y ->
+  src_symmetric_kl RNum x y z = src_symmetric_kl RNum y x z /\ 0 <= src_symmetric_kl RNum x y z /\ src_symmetric_kl RNum x x z = 0.
+Proof.
+  intros. rewrite (src_symmetric_kl_eqR x y z ltac:(assumption)), (src_symmetric_kl_eqR y x z ltac:(symmetry; assumption)), (src_symmetric_kl_eqR x x z eq_refl).
+  apply C12_symmetric_kl; assumption.
+Qed.
+Corollary C12_src_symmetric_kl_default_z : 0 < src_default_symmetric_kl_z RNum.
+Proof. unfold src_default_symmetric_kl_z, nlit. cbn. lra. Qed.
+
+Corollary C12_src_ll_dirichlet_partial : forall x y : list R, length x = length y ->
+  src_ll_dirichlet RNum (RPy RExt) x y = src_ll_dirichlet RNum (RPy RExt) y x.
+Proof.
+  intros. rewrite (src_ll_dirichlet_eq RExt (fun a => eq_refl) x y ltac:(assumption)), (src_ll_dirichlet_eq RExt (fun a => eq_refl) y x ltac:(symmetry; assumption)).
+  apply C12_ll_dirichlet_partial.
+Qed.
